@@ -2,7 +2,7 @@
    arbitrary polynomials, the link to the model (triangle_integration on any triangle = area2 * reference rule),
    the 4-way refinement partitions the area, and the adaptive scheme inherits any per-triangle error bound. *)
 From Coq Require Import Reals Qreals QArith Lra Lia List ZArith.
-From OM Require Import Base.Ops Base.OpsR Base.Vec3 Gen.GenQuadTables Geom.Quadrature Geom.QuadTablesProofs.
+From OM Require Import Base.Ops Base.OpsR Base.Vec3 Gen.GenQuadTables Geom.Quadrature Geom.QuadTablesProofs Geom.QuadTablesBig.
 Import ListNotations.
 Local Open Scope R_scope.
 
